@@ -446,6 +446,12 @@ class Crate:
             elif isinstance(x, list):
                 stack.extend(x)
 
+    def trait_paths(self):
+        """def paths of the traits declared in this crate"""
+        if not hasattr(self, "_trait_paths"):
+            self._trait_paths = {norm_path(t.get("def")) for t in self.raw.get("traits", [])}
+        return self._trait_paths
+
     def body(self, name):
         b = self.bodies.get(name)
         if b is None:
